@@ -110,6 +110,16 @@ class Frame:
 FALL = ('fall',)     # block completed normally
 
 
+def is_class_setting(ci, name):
+    node = ci.attrs.get(name)
+    return node is not None and isinstance(node, ast.Constant) and isinstance(node.value, bool) \
+        and not name.isupper() and not name.startswith('_')
+
+
+def class_settings(program):
+    return sorted('%s.%s' % (ci.name, nm) for ci in program.classes.values() for nm in ci.attrs if is_class_setting(ci, nm))
+
+
 class LiveEnv:
     """The environment a closure sees: the defining frame's variables *at call time* plus the cells of the comprehensions
     that enclosed its creation (updated while those run, kept afterwards)."""
@@ -2175,8 +2185,14 @@ class Evaluator:
             return X.attr_of(self, base, name, fr)
         return X.attr_of(self, base, name, fr)
 
+    # class-level settings (a lower-case class attribute holding True / False, which exists to be flipped by the user): with
+    # SYMBOLIC_SETTINGS on they are free booleans, so that a rule can be decided for either position of the switch
+    SYMBOLIC_SETTINGS = False
+
     def _class_attr(self, ci, name, depth):
         key = (ci.qual, name, self.backend)
+        if Evaluator.SYMBOLIC_SETTINGS and is_class_setting(ci, name):
+            return T.sym('SETTING:%s.%s' % (ci.name, name), type='bool')
         if key in self._modconst_cache:
             return self._modconst_cache[key]
         fr = Frame(None, {}, Facts(), ci.module, ci, depth + 1)
